@@ -35,7 +35,13 @@ MODES = {
 TRACE = "clone,clone3,mmap,munmap,mremap,brk,futex,set_tid_address,exit,exit_group,pread64"
 M64 = (1 << 64) - 1
 STACK_LEN = 0x200000
-CLASSES = {0: "zst", 1: "u8", 2: "u64", 3: "[u8;4096]", 4: "align64", 5: "Box<[u64;3]>"}
+CLASSES = {0: "zst", 1: "u8", 2: "u64", 3: "[u8;4096]", 4: "align64", 5: "Box<[u64;3]>",
+           # result types whose `Option<T>::None` is NOT the all-zero bit pattern (the niche is a non-zero value): a result
+           # slot that is merely zeroed instead of initialised to `None` reads back as `Some(<zero value>)`
+           6: "bool", 7: "char", 8: "core::cmp::Ordering", 9: "fieldless enum", 10: "Option<u32>", 11: "Result<u8,u8>",
+           # the same with a destructor that counts its runs: a value fabricated from a zeroed slot is *dropped* by a dropped handle
+           12: "struct(bool) with Drop"}
+NCLASS = len(CLASSES)
 
 
 # ------------------------------------------------------------------ build / run
@@ -168,7 +174,7 @@ def parse_out(text):
         if w[0] == "class":
             classes[int(w[1])] = (int(w[2]), int(w[3]))
         elif w[0] == "batch":
-            cur = {"n": int(w[2]), "spawn": {}, "join": {}, "drop": set(), "runs": {}, "before": None, "after": None, "ended": False}
+            cur = {"n": int(w[2]), "spawn": {}, "join": {}, "drop": set(), "runs": {}, "before": None, "after": None, "ended": False, "drops": None}
             batches[int(w[1])] = cur
         elif cur is None:
             continue
@@ -181,7 +187,10 @@ def parse_out(text):
         elif w[0] == "drop":
             cur["drop"].add(int(w[1]))
         elif w[0] == "runs":
-            cur["runs"][int(w[1])] = {"count": int(w[2]), "token": int(w[3]), "effect": int(w[4])}
+            cur["runs"][int(w[1])] = {"count": int(w[2]), "token": int(w[3]), "effect": int(w[4]), "drops": int(w[5]) if len(w) > 5 else None,
+                                      "made": int(w[6]) if len(w) > 6 else None}
+        elif w[0] == "drops":
+            cur["drops"] = (int(w[1]), int(w[2]))
         elif w[0] == "end":
             cur["ended"] = True
     return batches, classes
@@ -259,8 +268,18 @@ def analyze_batch(recs, exited, lo, hi, main, specs, cfg, classes, textb, nlines
                 continue
             if kind == "S":
                 cur, phase, nalloc = insts[iid], "spawn", 0
+                cur.undo = []
             elif kind == "s":
                 cur.spawn_ret = aux
+                # spawn's error path: the releases of tls, stack, closure and shared block touch one resource each and no
+                # other party exists yet, so they commute (Props/C05 `undo_releases_commute`); the model performs them in one
+                # fixed order: hand them to it in that order, at the observed positions.  That each happens exactly once is
+                # still decided by the model (ledger) and by the heap / mapping oracles.
+                if cur.undo:
+                    rank = {"hUndoTls": 0, "hUndoStack": 1, "hUndoBox": 2, "hUndoTsm": 3}
+                    cur.undo_order = [t for _, t in cur.undo]
+                    for (pos, _), tok in zip(cur.undo, sorted(cur.undo_order, key=lambda t: rank[t])):
+                        add(cur, pos, tok)
                 cur, phase = None, None
             elif kind == "J":
                 cur, phase = insts[iid], "join"
@@ -304,11 +323,11 @@ def analyze_batch(recs, exited, lo, hi, main, specs, cfg, classes, textb, nlines
                         problems.append(("model-map", "unexpected allocation #%d inside spawn of %d" % (nalloc, cur.id)))
                 else:
                     if cur.tls and ptr == cur.tls[0]:
-                        add(cur, r["entry"], "hUndoTls")
+                        cur.undo.append((r["entry"], "hUndoTls"))
                     elif cur.box and ptr == cur.box[0]:
-                        add(cur, r["entry"], "hUndoBox")
+                        cur.undo.append((r["entry"], "hUndoBox"))
                     elif cur.tsm and ptr == cur.tsm[0]:
-                        add(cur, r["entry"], "hUndoTsm")
+                        cur.undo.append((r["entry"], "hUndoTsm"))
                     else:
                         problems.append(("model-map", "unexpected free inside spawn of %d" % cur.id))
             elif r["name"] == "mmap":
@@ -325,7 +344,7 @@ def analyze_batch(recs, exited, lo, hi, main, specs, cfg, classes, textb, nlines
             elif r["name"] == "munmap":
                 if cur.stack and r["args"][:2] == [cur.stack[0], cur.stack[1]]:
                     cur.stack_unmapped_by = ("main", r["entry"])
-                    add(cur, r["entry"], "hUndoStack")
+                    cur.undo.append((r["entry"], "hUndoStack"))
                 else:
                     stats["alloc_munmap"] += 1
             elif r["name"] in ("clone", "clone3"):
@@ -523,12 +542,24 @@ def model_line(cfg, insts, base):
 
 
 def expected_digest(cls, token, edigest):
+    """the digest of the value `T::make(token)` the closure returns (the probe's `Val` impls, restated)"""
     if cls == 0:
         return 0
     if cls == 1:
         return token & 0xff
     if cls in (2, 4, 5):
         return token
+    k = token >> 1
+    if cls in (6, 12):
+        return k & 1                                   # bool / Flagged(bool)
+    if cls == 7:
+        return k % 0xD800                              # char (scalar values below the surrogates), '\0' included
+    if cls in (8, 9):
+        return k % 3                                   # Ordering: Less/Equal/Greater -> 0/1/2; Colour: Red/Green/Blue -> 0/1/2
+    if cls == 10:
+        return 0 if k % 3 == 0 else 1 + ((token >> 8) & 0xffffffff)      # None -> 0, Some(v) -> 1 + v
+    if cls == 11:
+        return ((k & 1) << 8) | ((token >> 8) & 0xff)   # Ok(v) -> 0x100 | v, Err(v) -> v
     return edigest     # [u8;4096]: the closure's own digest of what it built
 
 
@@ -594,12 +625,23 @@ def judge_batch(bno, specs, insts, problems, stats, heap_before, heap_live, tb, 
                     bad.append(("stack", "id %d: clone's child stack outside the mapping" % iid))
             if inst.t_free_tsm is not None and (inst.t_settid is None or inst.t_settid > inst.t_free_tsm):
                 bad.append(("tid-not-reset", "id %d: thread freed the shared block without resetting its clear-tid address first" % iid))
+            # the handle side (join or a drop that lost the CAS) frees the block only after the thread has issued its exit:
+            # until then the kernel still owes the block its clear-tid write
+            fl = getattr(inst, "freeline", None)
+            if fl is not None and inst.tid is not None and (inst.t_exit is None or fl < inst.t_exit):
+                bad.append(("free-before-exit", "id %d: %s freed the shared block (line %d) %s" % (
+                    iid, sp["action"], fl, "before the thread issued exit (line %d)" % inst.t_exit if inst.t_exit is not None else "of a thread that never issued exit")))
             if sp["panic"] and inst.box:
                 leaked_expect.append(inst.box[0])
         if inst.tsm and sp["class"] in classes:
             want = layout(*classes[sp["class"]])
             if (inst.tsm[1], inst.tsm[2]) != want[:2]:
                 bad.append(("layout", "id %d class %d: block allocated as %s, layout arithmetic gives %s" % (iid, sp["class"], inst.tsm[1:3], want[:2])))
+    if tb["ended"] and tb.get("drops") and tb["drops"][0] != tb["drops"][1] and not any(k == "hang" for k, _ in bad):
+        made, dropped = tb["drops"]
+        bad.append(("value-drop", "%d values with a destructor were returned by closures of this batch, their destructor ran %d times (a value nobody made was "
+                    "dropped, or a returned value never was); panicked threads of that class: %s" % (
+                        made, dropped, [sp["id"] for sp in specs if sp["class"] == 12 and sp["panic"]])))
     if tb["ended"] and not any(k == "hang" for k, _ in bad):
         new_live = sorted(p for p in heap_live if p not in heap_before)
         gone = sorted(p for p in heap_before if p not in heap_live)
@@ -639,7 +681,9 @@ def gen_batch(r, nmax):
             d, d2 = 0, r.choice([1000, 3000])
         elif style == 2:        # thread still running
             d, d2 = r.choice([1000, 3000]), 0
-        specs.append({"id": iid, "panic": r.chance(1, 4), "d": d, "class": r.below(6), "action": act, "d2": d2})
+        # half of the threads return one of the niche classes; panics are as frequent there as anywhere
+        cls = r.below(6) if r.chance(1, 2) else r.range(6, NCLASS - 1)
+        specs.append({"id": iid, "panic": r.chance(1, 4) if cls < 6 else r.chance(1, 2), "d": d, "class": cls, "action": act, "d2": d2})
     return specs
 
 
@@ -691,7 +735,7 @@ def process_run(run, batches, cfg, base0=0):
 
 
 def cfg_of(table):
-    d = table["derived"]
+    d = table["derived"]       # after thread_extract.emit: open parameters resolved from the running code (None -> false / no such value)
     return {"checkClone": int(bool(d["checkClone"])), "mmapCleanup": int(bool(d["mmapCleanup"])),
             "initWord": d["initWord"] if d["initWord"] is not None else 4294967295,
             "joinExpect": d["joinExpect"] if d["joinExpect"] is not None else 4294967295,
@@ -815,18 +859,29 @@ def account(ctx, items, exe, pid_kinds=None, inject=None):
             inst = it["insts"][sp["id"]]
             if inst.path:
                 ctx.hist("wait_paths", inst.path)
+            if getattr(inst, "undo_order", None):
+                ctx.hist("spawn_error_release_order_observed", ">".join(t[5:] for t in inst.undo_order))
             if sp["action"] != "join" and inst.hwon is not None and inst.tid is not None:
                 ctx.hist("flag_cas_winner", "handle" if inst.hwon else "thread")
             ctx.count((sp["panic"], sp["class"], sp["action"], inst.path, inst.mmap_fail, inst.clone_fail))
         ctx.hist("threads_per_batch", min(64, 1 << (len(it["specs"]) - 1).bit_length()))
         kinds = sorted({k for k, _ in it["judge"]})
+        # `model-map`: the observation could not be mapped onto the model's events (an allocation / futex operation the mapping
+        # does not know).  That is a broken correspondence, not a failing input: reported as such, below.
+        mm = [w for k, w in it["judge"] if k == "model-map"]
+        kinds = [k for k in kinds if k != "model-map"]
         if pid_kinds is not None:
-            kinds_rel = [k for k in kinds if k in pid_kinds or k in ("probe", "model-map", "heap")]
+            kinds_rel = [k for k in kinds if k in pid_kinds or k in ("probe", "heap")]
         else:
             kinds_rel = kinds
         if kinds_rel:
             nbad += 1
             ctx.violation(sig_of(kinds_rel[0]), replay_of(it, it["script"], exe, inject))
+            continue
+        if mm and not kinds:
+            nbad += 1
+            ctx.violation({"kind": "model-map"}, dict(replay_of(it, it["script"], exe, inject), why=mm[:4],
+                          note="every oracle is satisfied on this run; the observed operations could not be mapped onto the model's events"), no_input=True)
             continue
         why = check_model(it)
         if why and not kinds:
@@ -837,8 +892,9 @@ def account(ctx, items, exe, pid_kinds=None, inject=None):
     return nbad
 
 
-C05_KINDS = {"hang", "spawn-failure-not-error", "runs-once", "spawn", "join", "join-value", "join-visibility", "join-early", "layout"}
-C06_KINDS = {"double-free", "stack-use-after-unmap", "stack", "stack-leak", "tid-not-reset", "heap-baseline", "thread-leak", "vm-baseline"}
+C05_KINDS = {"hang", "spawn-failure-not-error", "runs-once", "spawn", "join", "join-value", "join-visibility", "join-early", "layout", "value-drop"}
+C06_KINDS = {"double-free", "stack-use-after-unmap", "stack", "stack-leak", "tid-not-reset", "heap-baseline", "thread-leak", "vm-baseline",
+             "free-before-exit", "value-drop"}
 
 
 def fault_positions(exe, script):
@@ -964,14 +1020,145 @@ ASSUMPTIONS = [
 ]
 
 
-def setup(ctx):
-    table = thread_extract.generate()
+GOOD_CFG = {"checkClone": 1, "mmapCleanup": 1, "initWord": 1, "joinExpect": 1, "dropExpect": 1, "setTidRet": 1, "setTidPanic": 1,
+            "dropValH": 1, "dropValT": 1, "recheck": 1}
+
+
+def calibrate(exe, cfg0, want):
+    """Parameters of the model the static extraction could not decide (the source there is in a form it does not understand):
+    take them from what the running code does, on runs made for the purpose.  -> ({param: value | None}, {param: what was observed}).
+    Only *how the parameter is obtained* changes: `gen_cfg_good` still demands the good value, every history is still replayed."""
+    out, how = {}, {}
+
+    def one(script, inject=None, timeout=12.0):
+        bs = batches_of_script(script)
+        run = run_probe(exe, script, inject=inject, timeout=timeout)
+        res, _, _ = process_run(run, bs, cfg0)
+        return [it for it in res if not it.get("missing")], run
+
+    def toks(inst):
+        return [t for _, _, t in sorted(inst.ev)]
+    if "checkClone" in want:
+        obs = []
+        for errno in ("EAGAIN", "ENOMEM", "EPERM"):
+            its, run = one("t 1 ret 0 2 join 0\ngo\n", "clone:error=%s:when=1" % errno)
+            if not its or not its[0]["insts"][1].clone_fail:
+                continue
+            inst, tb = its[0]["insts"][1], its[0]["tb"]
+            tk = toks(inst)
+            obs.append(bool(tb and tb["spawn"].get(1, ("?",))[0] == "err" and inst.nbegin == 0 and not run["timed_out"]
+                            and all(tk.count(x) == 1 for x in ("hUndoTls", "hUndoStack", "hUndoBox", "hUndoTsm"))))
+        out["checkClone"] = all(obs) if len(obs) == 3 else None
+        how["checkClone"] = "clone made to fail with EAGAIN / ENOMEM / EPERM: spawn returned Err and released tls, stack, closure, block once each: %s" % obs
+    if "mmapCleanup" in want:
+        script = "t 1 ret 0 2 join 0\ngo\n"
+        mm, _ = fault_positions(exe, script)
+        obs = []
+        for k in mm[:1]:
+            its, run = one(script, "mmap:error=ENOMEM:when=%d" % k)
+            if its and its[0]["insts"][1].mmap_fail:
+                inst, tb = its[0]["insts"][1], its[0]["tb"]
+                tk = toks(inst)
+                obs.append(bool(tb and tb["spawn"].get(1, ("?",))[0] == "err" and tk.count("hUndoBox") == 1 and tk.count("hUndoTsm") == 1))
+        out["mmapCleanup"] = all(obs) if obs else None
+        how["mmapCleanup"] = "stack mmap made to fail with ENOMEM: spawn returned Err and released closure and block: %s" % obs
+    for key, verb in (("setTidRet", "ret"), ("setTidPanic", "panic")):
+        if key in want:
+            obs = []
+            for d in (3000, 20000, 100000):
+                its, _ = one("t 1 %s %d 2 dropnow 0\ngo\n" % (verb, d))
+                if its and its[0]["insts"][1].hwon and its[0]["insts"][1].t_free_tsm is not None:
+                    i = its[0]["insts"][1]
+                    obs.append(i.t_settid is not None and i.t_settid < i.t_free_tsm)
+                    break
+            out[key] = obs[0] if obs else None
+            how[key] = "handle dropped first, the thread (%s) lost the CAS: set_tid_address(0) seen before its free of the block: %s" % (verb, obs)
+    for key, script, hwon in (("dropValT", "t 1 ret 20000 5 dropnow 0\ngo\n", True), ("dropValH", "t 1 ret 0 5 drop 20000\ngo\n", False)):
+        if key in want:
+            its, _ = one(script)
+            v = None
+            if its and its[0]["tb"] and its[0]["tb"]["ended"] and its[0]["insts"][1].hwon is hwon:
+                v = not any(k in ("heap-baseline", "hang") for k, _ in its[0]["judge"])
+            out[key] = v
+            how[key] = "a Box result nobody joined (%s side frees the block): heap back at its baseline after the batch: %s" % ("thread" if hwon else "handle", v)
+    if "recheck" in want:
+        its, _ = one("t 1 ret 60000 2 join 0\ngo\n", "futex:retval=0:when=1")
+        v = None
+        if its:
+            i = its[0]["insts"][1]
+            w = getattr(i, "waits", [])
+            if w and w[0]["ret"] == 0 and w[0]["exit"] is not None and i.t_end is not None and w[0]["exit"] < i.t_end:
+                # the first wait returned 0 while the closure was still running (nobody had woken the word)
+                v = len(w) >= 2 and not any(k in ("join-early", "free-before-exit") for k, _ in its[0]["judge"])
+        out["recheck"] = v
+        how["recheck"] = "first FUTEX_WAIT of join made to return 0 while the thread still ran: join loaded the word again and waited again: %s" % v
+    if want & {"joinExpect", "initWord", "waitPrivate"}:
+        its, _ = one("t 1 ret 40000 2 join 0\ngo\n")
+        je = iw = wp = None
+        if its:
+            w = getattr(its[0]["insts"][1], "waits", [])
+            if w and len(w[0]["args"]) > 2:
+                je, wp = w[0]["args"][2], bool((w[0]["args"][1] or 0) & 128)
+                if w[0]["err"] is None and w[0]["ret"] == 0:
+                    iw = je        # the kernel compared the word with this value and parked: the word held it while the thread ran
+        for k, v in (("joinExpect", je), ("initWord", iw), ("waitPrivate", wp)):
+            if k in want:
+                out[k] = v
+                how[k] = "join on a running thread: futex(word, op=%s, val=%s) parked" % ("FUTEX_WAIT|PRIVATE" if wp else "FUTEX_WAIT", je)
+    if "dropExpect" in want:
+        its, _ = one("".join("t %d ret 300 2 drop 300\n" % i for i in range(16)) + "go\n")
+        vals = set()
+        for it in its:
+            for inst in it["insts"].values():
+                for w in getattr(inst, "waits", []):
+                    if len(w["args"]) > 2:
+                        vals.add(w["args"][2])
+        out["dropExpect"] = vals.pop() if len(vals) == 1 else None
+        how["dropExpect"] = "handles dropped while their threads were exiting: futex wait values seen: %s" % (out["dropExpect"],)
+    return out, how
+
+
+def setup(ctx, exe=None):
+    """tie T: static extraction; what it leaves open is taken from the running code (needs the probe)"""
+    table = thread_extract.analyse()
+    d = table["derived"]
+    want = {k for k in thread_extract.PARAMS + thread_extract.NUMS if d[k] is None}
+    if table["wait_private"] is None:
+        want.add("waitPrivate")
+    resolved, how = {}, {}
+    if want:
+        if exe is None:
+            exe, err = build_probe(ctx, "dyn")
+        if exe is not None:
+            cfg0 = dict(GOOD_CFG)
+            for k in cfg0:
+                if d.get(k) is not None:
+                    cfg0[k] = int(d[k])
+            resolved, how = calibrate(exe, cfg0, want)
+    table = thread_extract.emit(table, resolved)
     cfg = cfg_of(table)
     ctx.extra["extracted_cfg"] = cfg
-    ctx.extra["extracted_ops"] = {"spawn": table["spawn_ops"], "panic": table["panic_ops"], "clone_asm": table["clone_asm"]}
-    ctx.trusted += ["checks/thread_extract.py (label extractor for spawn.rs; its output is pinned by gen_shape_ok / gen_cfg_good / gen_cas_orderings)",
+    unk = {}
+    for fn, ps in table["paths"].items():
+        u = sorted({o for p in ps for o in p if o not in thread_extract.VOCAB})
+        if u or not ps:
+            unk[fn] = u or ["(function not found)"]
+    ctx.extra["tie_T"] = {
+        "paths": {k: [" ".join(p) for p in v] for k, v in table["paths"].items()},
+        "parameter_source": table["src"],
+        "taken_from_running_code": {k: {"value": resolved.get(k), "observation": how.get(k)} for k in sorted(want)},
+        "not_understood": unk, "notes": table["notes"], "clone_asm": table["clone_asm"],
+        "partial_orders_checked_statically": [k for k in table["paths"] if k not in unk],
+    }
+    ctx.trusted += ["checks/thread_extract.py (semantic extractor for spawn.rs: inlines the file's helper functions, enumerates paths; its output is re-checked by "
+                    "gen_shape_ok / gen_params_from_paths / gen_cfg_good / gen_cas_orderings)",
                     "strace 6.1 (observation and fault injection), the probe's marker system calls and counting allocator wrapper"]
     ctx.assumptions += ASSUMPTIONS
+    if want or unk:
+        ctx.assumptions.append(
+            "tie T fell back to the running code: the extractor did not understand %s; the model parameters %s are what fault-injected / scheduled probe runs "
+            "showed (see coverage.tie_T.taken_from_running_code), and for those functions the order of operations is checked only on the observed histories "
+            "(every one replayed by the model), not on the source text" % (unk or "(everything understood)", sorted(want)))
     return table, cfg
 
 
@@ -993,7 +1180,8 @@ def layout_tie(ctx, classes):
 def run(ctx, which="C05"):
     quick = ctx.tier == "quick"
     ctx.rule = ("a case = one batch of 1..64 concurrently live threads, each with (closure returns | panics after d us, result class "
-                "zst/u8/u64/[u8;4096]/align64/Box, handle joined | dropped after d' us | dropped at once), run on the real tiny-std threads under "
+                "zst/u8/u64/[u8;4096]/align64/Box | bool/char/Ordering/field-less enum/Option<u32>/Result<u8,u8>/struct(bool)+Drop [None is not all-zero], "
+                "handle joined | dropped after d' us | dropped at once), run on the real tiny-std threads under "
                 "strace -f, plus fault runs (every stack-mmap and every clone position of a script made to fail); "
                 "distinct_nontrivial = distinct (panic, class, handle action, wait path taken [fast load | EAGAIN | parked | handle won the CAS], "
                 "injected failure) combinations observed")
